@@ -8,8 +8,9 @@ EXPLANATION = (
     "variant through one projection, and it must be the same projection for Eq, Ord and Hash (otherwise equal values hash "
     "differently); that projection must not be lossy for integer pairs (to_f64 collapses integers above 2^53 — known "
     "finding D20); ORDER BY, DISTINCT, GROUP BY, IN-lists, the merge/hash joins and the B+tree key comparator all resolve "
-    "to these same impls, so order agreement between indexes and sorting reduces to the first two clauses.")
-NOT_DECIDED = ("total-order laws, NaN and -0.0, casts, serialisation round trips, byte-wise comparison of TEXT/BLOB "
+    "to these same impls, so order agreement between indexes and sorting reduces to the first two clauses; float-to-integer "
+    "casts convert directly into a type wide enough for the target and check the range against the target's own MIN/MAX.")
+NOT_DECIDED = ("total-order laws, NaN and -0.0, the arithmetic of casts, serialisation round trips, byte-wise comparison of TEXT/BLOB "
                "(value-level arithmetic)")
 ASSUMPTIONS = []
 
@@ -79,7 +80,7 @@ def check(cx):
 
         # ---- C19.2 no lossy route for integer pairs ---------------------------------------------------
         r2 = cx.rule("C19.2", "FLOW: equality/ordering of two integer values must not go through an integer-to-float "
-                     "projection (f64 has 53 bits of mantissa)", floor=2)
+                     "projection (f64 has 53 bits of mantissa) nor through an integer cast whose destination cannot hold every source value", floor=4)
         for nm, f in (("eq", feq), ("partial_cmp", ford)):
             if not f:
                 continue
@@ -89,6 +90,26 @@ def check(cx):
                                                   or "PartialEq for i64" in c.callee or "i128" in c.callee)]
             cx.verdict(bool(int_cmp or int_calls), r2, "%s:%s:integer-pairs-exact" % (short, nm), f.where(), "integer pairs are compared as integers",
                        "%s of %s compares two integers through to_f64(): 9007199254740993 = 9007199254740992 is true (D20)" % (nm, short))
+            # an exact integer comparison must not get there through a wrapping cast (u64 as i64 turns 2^63.. negative)
+            RNG = {"i8": (-2**7, 2**7 - 1), "i16": (-2**15, 2**15 - 1), "i32": (-2**31, 2**31 - 1), "i64": (-2**63, 2**63 - 1),
+                   "i128": (-2**127, 2**127 - 1), "u8": (0, 2**8 - 1), "u16": (0, 2**16 - 1), "u32": (0, 2**32 - 1),
+                   "u64": (0, 2**64 - 1), "u128": (0, 2**128 - 1)}
+            wraps = []
+            for gid in [f.id] + list(p.closure_children.get(f.id, ())):
+                g = p.fns[gid]
+                for b in g.blocks:
+                    for st in b["stmts"]:
+                        rv = st["rv"]
+                        if rv.get("r") == "cast" and rv.get("kind") == "IntToInt":
+                            o = rv["o"][0]
+                            pl = o.get("c") or o.get("m")
+                            sty = core.place_type(p, g, pl) if pl else None
+                            dty = rv.get("to")
+                            if sty in RNG and dty in RNG and (RNG[dty][0] > RNG[sty][0] or RNG[dty][1] < RNG[sty][1]):
+                                wraps.append("%s as %s" % (sty, dty))
+            cx.verdict(not wraps, r2, "%s:%s:no-wrapping-cast" % (short, nm), f.where(), "no wrapping integer cast between the operands",
+                       "%s of %s casts an operand with `%s`: values outside the destination range wrap, so e.g. a BIGUINT >= 2^63 "
+                       "orders below every BIGINT while `=` still tells them apart" % (nm, short, ", ".join(sorted(set(wraps)))))
 
     # ---- C19.3 one comparator everywhere ------------------------------------------------------------------
     r3 = cx.rule("C19.3", "SIB: ORDER BY, DISTINCT, GROUP BY, IN-lists, joins and the B+tree key comparator resolve to the "
@@ -116,3 +137,45 @@ def check(cx):
                     for f in fs for c in f.calls())
         cx.verdict(bool(hit) or keyed, r3, name, fs[0].where(), "uses %s" % (sorted(hit) or "std collection keyed by DataType"),
                    "%s no longer compares through the DataType impls (own comparison logic?)" % name)
+
+    # ---- C19.4 float -> integer casts --------------------------------------------------------------------------
+    r4 = cx.rule("C19.4", "FLOW: for every `impl TypeCast<IntN|UIntN> for FloatM` the float-to-integer conversion reachable from "
+                 "try_cast goes directly into an integer type that can hold every value of the target (no detour through a "
+                 "type that saturates earlier, e.g. u64 via i64), and the range bounds handed to the helper are MIN/MAX of the "
+                 "target's own primitive", floor=8)
+    PRIM = {"Int32": "i32", "Int64": "i64", "UInt32": "u32", "UInt64": "u64"}
+    RANGE = {"i8": (-2**7, 2**7 - 1), "i16": (-2**15, 2**15 - 1), "i32": (-2**31, 2**31 - 1), "i64": (-2**63, 2**63 - 1),
+             "i128": (-2**127, 2**127 - 1), "isize": (-2**63, 2**63 - 1), "u8": (0, 2**8 - 1), "u16": (0, 2**16 - 1),
+             "u32": (0, 2**32 - 1), "u64": (0, 2**64 - 1), "u128": (0, 2**128 - 1), "usize": (0, 2**64 - 1)}
+    import re as _re
+    for f in sorted(p.fns.values(), key=lambda x: x.id):
+        m_ = _re.match(r"^<types::numeric::(Float32|Float64) as types::core::TypeCast<types::numeric::(\w+)>>::try_cast$", f.id)
+        if not m_ or m_.group(2) not in PRIM:
+            continue
+        src, tgt = m_.group(1), m_.group(2)
+        prim = PRIM[tgt]
+        reach = {x for x in p.reach_forward([f.id]) if x in p.fns and (x.startswith("types::") or x.startswith("<types::"))}
+        casts = []
+        for gid in sorted(reach | {f.id}):
+            g = p.fns[gid]
+            for b in g.blocks:
+                for st in b["stmts"]:
+                    if st["rv"].get("r") == "cast" and st["rv"]["kind"] == "FloatToInt":
+                        casts.append((gid, st["rv"]["to"]))
+        lo, hi = RANGE[prim]
+        bad = [(g_, t_) for g_, t_ in casts if t_ not in RANGE or RANGE[t_][0] > lo or RANGE[t_][1] < hi]
+        cx.verdict(bool(casts) and not bad, r4, "%s->%s:direct" % (src, tgt), f.where(),
+                   "float-to-int casts: %s" % sorted({t_ for _, t_ in casts}),
+                   "casting %s to %s converts the float through %s, which cannot hold every %s value: large values saturate "
+                   "to a different number (store/load and equality with the literal break)" % (src, tgt, bad or "no float-to-int cast", prim))
+        bounds = set()
+        for b in f.blocks:
+            for st in b["stmts"]:
+                if st["rv"].get("r") == "cast" and st["rv"]["kind"] == "IntToFloat":
+                    k = (st["rv"]["o"][0].get("k") or {})
+                    cd = k.get("cdef") or ""
+                    mm = _re.match(r"^core::num::<impl (\w+)>::(MIN|MAX)$", cd)
+                    bounds.add((mm.group(1), mm.group(2)) if mm else ("?", cd or str(k.get("v"))))
+        want = {(prim, "MAX")} | ({(prim, "MIN")} if prim.startswith("i") else set())
+        cx.verdict(bounds == want, r4, "%s->%s:bounds" % (src, tgt), f.where(), "range bounds %s" % sorted(bounds),
+                   "casting %s to %s checks the range against %s instead of %s" % (src, tgt, sorted(bounds), sorted(want)))
